@@ -63,8 +63,35 @@ def really_overrides(prog, self_ty, m, depth=0):
     return any(really_overrides(prog, r, m, depth + 1) for r in recv)
 
 
+def r10(ctx):
+    """pattern conversion shows EVERY node's text to the recogniser: in extract_var_from_node (or whoever calls extract_meta_var on the
+    way from convert_node_to_pattern) no return is reachable without the call.  A shortcut in front of it ("a variable is one token")
+    is a second, language-dependent recogniser: Bash parses `$$A` / `$$$A` into a `concatenation` of two named nodes."""
+    from ..query import path_avoiding
+    prog = ctx.prog
+    conv = ctx.anchor("R10", r"^ast_grep_core::matcher::pattern::convert_node_to_pattern$")
+    if not conv:
+        return
+    n = 0
+    for f in [conv] + [g for g in prog.find_fns(r"^ast_grep_core::matcher::pattern::extract_var_from_node$")]:
+        fi = prog.inlined(f) if f is conv else f
+        calls = [c for c in fi.calls if c.bb in fi.live_blocks and c.name in ("extract_meta_var", "extract_var_from_node")]
+        if not calls:
+            continue
+        n += 1
+        rets = [b for b in fi.live_blocks if fi.blocks[b]["t"][0] == "ret"]
+        skip = path_avoiding(fi, 0, {c.bb for c in calls}, rets)
+        ctx.ob("R10", "%s asks the recogniser on every path" % f.id.rsplit("::", 1)[-1], not skip,
+               "no return is reachable without the call of %s" % sorted({c.name for c in calls}) if not skip else
+               "a return is reachable without asking Language::extract_meta_var: some pattern nodes are declared 'not a variable' by a local shortcut, "
+               "so a spelling that is a variable in one language is literal text in another", where=f.loc())
+    ctx.floor("R10", "functions between convert_node_to_pattern and the recogniser", n, 2)
+
+
 def run(ctx):
     prog = ctx.prog
+    ctx.rule("R10", "pattern conversion shows every node to the shared recogniser: no return in front of the extract_meta_var call")
+    r10(ctx)
     ctx.rule("R1", "one recogniser: default extract_meta_var uses the language's expando; wrappers forward every syntax method a wrapped language really overrides")
     ctx.rule("R2", "built-in languages: expando_char overridden <=> pre_process_pattern overridden and resolving to the shared routine with the language's own expando; meta_var_char never overridden")
     ctx.rule("R3", "language table exhaustive: all_langs length == number of SupportLang variants; per-variant dispatch of the syntax methods")
